@@ -43,7 +43,7 @@ def build_positive(rng, g):
                 lines.append(t)
         else:
             rows, cols = rng.randint(1, 5), rng.randint(1, 6)
-            pp = rng.choice([0.0, 0.0, 0.25, 0.6]) if vt != "int" else 0.0
+            pp = rng.choice([0.0, 0.0, 0.25, 0.6])
             t = G.decl_array(vartype=vt, rows=rows, cols=cols, shape=rng.random() < 0.5, param_p=pp)
             if t:
                 lines.extend(t.split("\n"))
